@@ -650,35 +650,13 @@ func (ex *Exec) execSlice(st *State, x *ssa.Slice) {
 	}
 }
 
-func (ex *Exec) implementsFact(tconst string, t types.Type, iface *types.Interface, ifaceKey string) {
-	pred := ex.ctx.declFun("impl!"+ifaceKey, []string{sortType}, sortBool)
-	ok := types.Implements(t, iface)
-	f := sx(pred, tconst)
-	if !ok {
-		f = smtNot(f)
-	}
-	ex.ctx.fact("impl!"+ifaceKey+"!"+tconst, f, tconst)
-}
-
 func (ex *Exec) execTypeAssert(st *State, x *ssa.TypeAssert) []*State {
 	ctx := ex.ctx
 	a := ex.val(st, x.X)
 	var ok, val string
 	var vs string
 	if it, isIface := x.AssertedType.Underlying().(*types.Interface); isIface {
-		key := typeKey(x.AssertedType)
-		pred := ctx.declFun("impl!"+key, []string{sortType}, sortBool)
-		// facts for every concrete type constant known so far
-		ctx.mu.Lock()
-		known := map[string]types.Type{}
-		for k, t := range ctx.typeIDs {
-			known[k] = t
-		}
-		ctx.mu.Unlock()
-		for k, t := range known {
-			ex.implementsFact(k, t, it, key)
-		}
-		ex.ifaceAsserts = append(ex.ifaceAsserts, ifaceAssert{key, it})
+		pred := ctx.implPred(x.AssertedType)
 		ok = smtAnd(smtNot(sx("=", a.T, "iface_nil")), sx(pred, sx("typeof", a.T)))
 		if it.NumMethods() == 0 {
 			ok = smtNot(sx("=", a.T, "iface_nil"))
